@@ -1145,7 +1145,7 @@ def rewrite_table(ctx):
         label = (f'parts={[p if isinstance(p, str) else "*" for p in parts]} is_table={is_table} is_target={is_target} alias={has_alias} from={fk}'
                  + (' other-table-aliased-like-the-integration' if other_alias else ''))
         try:
-            it.call_function(pis, [Obj('QueryPlanner'), 'int1', query], {}, Env())
+            it.call_function(pis, [real_planner(ctx, ['int1', 'int2', {'name': 'proj', 'type': 'project'}], []), 'int1', query], {}, Env())
         except Raised as r:
             out.append((f'raises:{label}', False, f'prepare_integration_select raises {r.exc_name} on [{label}]', pis.lineno))
             continue
